@@ -97,9 +97,13 @@ theorem assignGlobal_spec (sevs : Option (List Sev)) (r r' : RuleObj) (kv : Stri
     cases sevs with
     | none => simp [setSeverity] at h
     | some sl =>
-      simp only [setSeverity, Except.ok.injEq] at h
-      subst h
-      constructor <;> simp [hs]
+      simp only [setSeverity] at h
+      cases hg : getSeverityNamed sl kv.2 with
+      | none => simp [hg] at h
+      | some s =>
+        simp only [hg, Except.ok.injEq] at h
+        subst h
+        constructor <;> simp [hs, hg]
   · simp only [hs, if_false] at h
     by_cases hc : kv.1 ∈ r.configuration
     · simp only [hc, if_true, Except.ok.injEq] at h
@@ -124,9 +128,13 @@ theorem assignDict_spec (sevs : Option (List Sev)) (r r' : RuleObj) (kv : String
     cases sevs with
     | none => simp [setSeverity] at h
     | some sl =>
-      simp only [setSeverity, Except.ok.injEq] at h
-      subst h
-      constructor <;> simp [hs]
+      simp only [setSeverity] at h
+      cases hg : getSeverityNamed sl kv.2 with
+      | none => simp [hg] at h
+      | some s =>
+        simp only [hg, Except.ok.injEq] at h
+        subst h
+        constructor <;> simp [hs, hg]
   · simp only [hs, if_false] at h
     by_cases hc : dhas r.dict kv.1 = true
     · simp only [hc, if_true, Except.ok.injEq] at h
